@@ -30,12 +30,12 @@ def normalise(contents: str) -> str:
 def main() -> None:
     w = json.loads(sys.stdin.read())
     from simfcp.kit import setup_repo_path, scratch_base
-    from simfcp.kit.ambient import SimClock, patch_cpp_ambient
-    setup_repo_path()
+    from simfcp.kit.ambient import SimClock, install_global_ambient
 
-    # --- ambient seams
+    # --- ambient seams: installed BEFORE the code under test is imported, process-wide
     clock = SimClock(w.get("clock0", 1_700_000_000))
-    patch_cpp_ambient(clock, w.get("user", "simuser"), w.get("host", "simhost"))
+    install_global_ambient(clock, w.get("user", "simuser"), w.get("host", "simhost"))
+    setup_repo_path()
     real_listdir = os.listdir
     lrng = random.Random(w.get("listperm", 0))
 
